@@ -33,10 +33,10 @@ type openingSpec struct {
 }
 
 var liquidDeviations = []string{"honest", "honest", "honest", "amount+1", "amount-1", "amount-1000", "other-asset", "forged-asset", "wrong-blinding-key", "no-proofs",
-	"swapped-keys", "third-key", "other-hash", "other-csv", "wrong-vout", "duplicate-first-bad", "explicit-output", "explicit-other-asset", "unrelated-tx", "extra-outputs"}
+	"swapped-keys", "third-key", "other-hash", "other-csv", "wrong-vout", "duplicate-first-bad", "explicit-output", "explicit-other-asset", "unrelated-tx", "extra-outputs", "split-script-and-amount", "split-script-and-amount"}
 
 var btcDeviations = []string{"honest", "honest", "honest", "amount+1", "amount-1", "amount-1000", "swapped-keys", "third-key", "other-hash", "other-csv", "wrong-vout",
-	"duplicate-first-bad", "unrelated-tx", "extra-outputs", "equal-value-before"}
+	"duplicate-first-bad", "unrelated-tx", "extra-outputs", "equal-value-before", "split-script-and-amount", "split-script-and-amount"}
 
 var invoiceDeviations = []string{"honest", "honest", "honest", "honest", "msat+1", "msat-1", "x1000", "div1000", "other-hash", "cltv"}
 
@@ -155,6 +155,7 @@ func TestC01TakerPaysOnlyValidatedOpening(t *testing.T) {
 			}
 			announceVout := uint32(before)
 			announceKey := blindKey
+			var after []realtx.OutSpec
 			switch dev {
 			case "amount+1":
 				swapOut.Value++
@@ -192,8 +193,20 @@ func TestC01TakerPaysOnlyValidatedOpening(t *testing.T) {
 			case "extra-outputs":
 				outs = append(outs, realtx.OutSpec{Script: []byte{0x51}, Value: openSat, BlindTo: blindKey.PubKey()})
 				announceVout = uint32(len(outs))
+			case "split-script-and-amount":
+				// the swap script on one output, the negotiated amount on another: no single output has both
+				decoy := realtx.OutSpec{Script: []byte{0x00, 0x14, 8, 8, 8, 4, 5, 6, 7, 8, 9, 10, 11, 12, 13, 14, 15, 16, 17, 18, 19, 20}, Value: openSat, BlindTo: blindKey.PubKey()}
+				swapOut.Value = rapid.SampledFrom([]uint64{330, 1000, openSat / 2, openSat - 1}).Draw(t, "splitValue")
+				if rapid.Bool().Draw(t, "decoyFirst") {
+					outs = append(outs, decoy)
+					announceVout = uint32(len(outs)) - uint32(rapid.IntRange(0, 1).Draw(t, "announceDecoy"))
+				} else {
+					after = append(after, decoy)
+					announceVout = uint32(len(outs)) + uint32(rapid.IntRange(0, 1).Draw(t, "announceDecoy"))
+				}
 			}
 			outs = append(outs, swapOut)
+			outs = append(outs, after...)
 			outs = append(outs, realtx.OutSpec{Script: []byte{0x00, 0x14, 9, 9, 9, 4, 5, 6, 7, 8, 9, 10, 11, 12, 13, 14, 15, 16, 17, 18, 19, 20}, Value: 44_000, BlindTo: otherBlind.PubKey()}, realtx.OutSpec{Fee: true, Value: 260})
 			tx, err := realtx.BuildTx(r, rapid.IntRange(1, 2).Draw(t, "inputs"), outs)
 			if err != nil {
@@ -217,6 +230,7 @@ func TestC01TakerPaysOnlyValidatedOpening(t *testing.T) {
 				tx.AddTxOut(wire.NewTxOut(int64(33_000+i), []byte{0x00, 0x14, byte(i), 2, 3, 4, 5, 6, 7, 8, 9, 10, 11, 12, 13, 14, 15, 16, 17, 18, 19, 20}))
 			}
 			script, value := honestScript, int64(openSat)
+			var afterBtc []*wire.TxOut
 			announceVout := uint32(before)
 			switch dev {
 			case "amount+1":
@@ -244,8 +258,22 @@ func TestC01TakerPaysOnlyValidatedOpening(t *testing.T) {
 			case "equal-value-before":
 				tx.AddTxOut(wire.NewTxOut(value, []byte{0x00, 0x14, 7, 7, 7, 4, 5, 6, 7, 8, 9, 10, 11, 12, 13, 14, 15, 16, 17, 18, 19, 20}))
 				announceVout = uint32(len(tx.TxOut))
+			case "split-script-and-amount":
+				// the swap script on one output, the negotiated amount on another: no single output has both
+				decoy := wire.NewTxOut(value, []byte{0x00, 0x14, 8, 8, 8, 4, 5, 6, 7, 8, 9, 10, 11, 12, 13, 14, 15, 16, 17, 18, 19, 20})
+				value = rapid.SampledFrom([]int64{330, 1000, value / 2, value - 1}).Draw(t, "splitValue")
+				if rapid.Bool().Draw(t, "decoyFirst") {
+					tx.AddTxOut(decoy)
+					announceVout = uint32(len(tx.TxOut)) - uint32(rapid.IntRange(0, 1).Draw(t, "announceDecoy"))
+				} else {
+					afterBtc = append(afterBtc, decoy)
+					announceVout = uint32(len(tx.TxOut)) + uint32(rapid.IntRange(0, 1).Draw(t, "announceDecoy"))
+				}
 			}
 			tx.AddTxOut(wire.NewTxOut(value, script))
+			for _, o := range afterBtc {
+				tx.AddTxOut(o)
+			}
 			tx.AddTxOut(wire.NewTxOut(44_000, []byte{0x00, 0x14, 9, 9, 9, 4, 5, 6, 7, 8, 9, 10, 11, 12, 13, 14, 15, 16, 17, 18, 19, 20}))
 			var buf bytes.Buffer
 			_ = tx.Serialize(&buf)
